@@ -32,7 +32,7 @@ Fixpoint strip_prefix (p x : str) : option str :=
   end.
 Definition reserved_id (id : str) : bool :=
   existsb (fun p => match strip_prefix p id with
-                    | Some (c :: r) => forallb (fun d => ((48 <=? d) && (d <=? 57)) || (d =? 45)) (c :: r)
+                    | Some (c :: r) => forallb (fun d => existsb (N.eqb d) anchor_tail_chars) (c :: r)
                     | _ => false end) [R "s"; R "fig"; R "tbl"; R "poem"]
   || str_eqb id (R "toc-title").
 Definition store_id (id : str) (i : idinfo) (s : st) : st :=
